@@ -175,7 +175,7 @@ def build_inferred_module(rng, gated: set, idx: int, n: int):
 RET_LEAVES = [("int",), ("str",), ("bool",), ("float",), ("cls", "Cls"), ("enum", "Color"), ("list", ("int",)), ("dict", ("str",), ("int",)), ("opt", ("str",)), ("lit", ["a", 1]), ("union", [("int",), ("str",)]), ("set", ("int",)), ("callable", [("int",)], ("str",)), ("tuple", [("int",), ("str",)])]
 
 
-def build_annotated_module(rng, idx: int, n: int):
+def build_annotated_module(rng, idx: int, n: int, gated: set = frozenset()):
     lines = [c05.HEADER]
     gt = {}
     for j in range(n):
@@ -185,7 +185,10 @@ def build_annotated_module(rng, idx: int, n: int):
             anno_src, exp = "None", []
         elif r < 0.55:
             k = rng.randint(1, 4)
-            elems = [rng.choice(RET_LEAVES) for _ in range(k)]
+            # None is an element like any other: first, last, in the middle, alone, repeated
+            elems = [rng.choice(RET_LEAVES) if rng.random() < 0.8 else ("None",) for _ in range(k)]
+            if elems == [("None",)] and "return:annotated:one-tuple-of-none" in gated:
+                elems = [("None",), ("None",)]
             anno_src = f"tuple[{', '.join(tt.py(e) for e in elems)}]"
             exp = [tt.ref_nf(e) for e in elems]
         else:
@@ -215,7 +218,7 @@ def gen(tier: str, seed: int) -> list[Case]:
         text, gt = build_inferred_module(rng, gated, i, 150)
         files["src/pk/inferred.py"] = text
         gts["pk.inferred"] = gt
-        text, gt = build_annotated_module(rng, i, 150)
+        text, gt = build_annotated_module(rng, i, 150, gated)
         files["src/pk/m1.py"] = text
         gts["pk.m1"] = gt
         # a module the docstring library cannot load (byte order mark) whose functions follow - in whatever order the
@@ -237,7 +240,10 @@ def gen(tier: str, seed: int) -> list[Case]:
             "pair_it": {"kind": "annotated", "expected": [tt.ref_nf(("float",)), tt.ref_nf(("bool",))], "names": None, "anno": "tuple[float, bool]"},
         }
         # annotated results keep their docstring names only under a structured style; inferred ones need none
-        cases.append(Case(cid=f"c07-{i}", files=files, opts=["--docstyle", "numpydoc"] + (["-nc"] if i % 2 else []), meta={"gt": gts, "nc": bool(i % 2)}, reach=REACH))
+        # the documented result types ('object') differ from every annotation: with the code as preferred source (the default,
+        # also spelled out) the warning setting must not matter
+        noise = [[], ["-tsw", "ignore"], ["-tsp", "code", "-tsw", "warn"], ["-tsp", "code", "-tsw", "ignore"]][(i // 2) % 4]
+        cases.append(Case(cid=f"c07-{i}", files=files, opts=["--docstyle", "numpydoc"] + (["-nc"] if i % 2 else []) + noise, meta={"gt": gts, "nc": bool(i % 2)}, reach=REACH))
     return cases
 
 
